@@ -495,12 +495,17 @@ func cacheEngine(c *Ctx) {
 				cacheExec(c, op)
 			} else if strings.HasPrefix(op, "cache-foreign ") {
 				cacheForeignOrder(c, op)
+			} else if strings.HasPrefix(op, "cache-commitfails ") {
+				cacheCommitFails(c, op)
 			}
 		}
 		return
 	}
 	for k := 0; k < 3; k++ {
 		cacheForeignOrder(c, fmt.Sprintf("cache-foreign %d", k))
+	}
+	for i, how := range []string{"dangling", "dangling2", "readonly", "dangling", "readonly", "dangling2"} {
+		cacheCommitFails(c, fmt.Sprintf("cache-commitfails %s %s %s", []string{"tar", "zip"}[i%2], how, []string{"none", "copy", "mount", "copy", "none", "none"}[i]))
 	}
 	n := 25
 	if c.Tier == "thorough" {
@@ -602,4 +607,71 @@ func cacheForeignOrder(c *Ctx, op string) {
 	}
 	c.EmitR(op, "skip", "skip")
 	c.Distinct(op)
+}
+
+// cacheCommitFails: the commit of a freshly unpacked fileset onto its shelf cannot happen — the shard directory's name is
+// taken by a dangling symlink, by a regular file, or the fileset directory is read-only (bind mount) — under every caching
+// placement mode: the unpack answers with a categorized error, or it succeeded and the shelf (or the destination) holds the
+// ware. A success with nothing stored is an I/O failure swallowed. Recipe: "cache-commitfails <tar|zip> <how> <mode>".
+func cacheCommitFails(c *Ctx, op string) {
+	c.Begin(op)
+	f := strings.Fields(op)
+	fmtName, how, mode := f[1], f[2], f[3]
+	caseCounter++
+	base := filepath.Join(c.Work, fmt.Sprintf("ccf%d", caseCounter))
+	defer rmrf(base)
+	src, wh, cache := filepath.Join(base, "src"), filepath.Join(base, "wh"), filepath.Join(base, "cache")
+	os.MkdirAll(filepath.Join(src, "d"), 0755)
+	os.MkdirAll(wh, 0755)
+	os.WriteFile(filepath.Join(src, "d", "f"), []byte("content "+op), 0644)
+	os.Setenv("RIO_CACHE", cache)
+	os.Setenv("RIO_BASE", filepath.Join(base, "riobase"))
+	ctx := context.Background()
+	fn := funcsFor(fmtName)
+	id, err := fn.pack(ctx, api.PackType(fmtName), src, api.MustParseFilesetPackFilter(losslessPackStr), whAddr("ca", wh), rio.Monitor{})
+	c.EmitR(op, "skip", "skip")
+	if err != nil {
+		return
+	}
+	filesetDir := filepath.Join(cache, fmtName, "fileset")
+	shard := filepath.Join(filesetDir, id.Hash[0:3])
+	shelf := filepath.Join(shard, id.Hash[3:6], id.Hash)
+	os.MkdirAll(filesetDir, 0755)
+	switch how {
+	case "dangling":
+		os.Symlink("nowhere-"+id.Hash[:6], shard)
+	case "dangling2":
+		os.MkdirAll(shard, 0755)
+		os.Symlink("nowhere", filepath.Join(shard, id.Hash[3:6]))
+	case "readonly":
+		if syscall.Mount(filesetDir, filesetDir, "", syscall.MS_BIND, "") != nil {
+			c.H("cache-commitfails:skipped")
+			return
+		}
+		defer syscall.Unmount(filesetDir, syscall.MNT_DETACH)
+		if syscall.Mount("", filesetDir, "", syscall.MS_BIND|syscall.MS_REMOUNT|syscall.MS_RDONLY, "") != nil {
+			c.H("cache-commitfails:skipped")
+			return
+		}
+	}
+	dst := filepath.Join(base, "dst")
+	got, uerr, pan := safeCall(func() (api.WareID, error) {
+		return fn.unpack(ctx, id, dst, api.MustParseFilesetUnpackFilter(losslessUnpackStr), rio.PlacementMode(mode), []api.WarehouseLocation{whAddr("ca", wh)}, rio.Monitor{})
+	})
+	if mode == "mount" {
+		syscall.Unmount(dst, 0)
+	}
+	c.H("cache-commitfails:" + how + ":" + mode + ":" + resTok(got, uerr, pan))
+	switch {
+	case pan != "":
+		c.PropFail("cache-panic", "unpack panicked when the shelf could not be committed ("+how+"): "+pan, op)
+	case uerr != nil:
+		if cat := catOf(uerr); !strings.HasPrefix(cat, "rio-") {
+			c.PropFail("uncategorized-error", "the failed commit onto the shelf ("+how+") is reported without a category: "+uerr.Error(), op)
+		}
+	default:
+		if _, e := os.Stat(filepath.Join(shelf, "d", "f")); e != nil {
+			c.PropFail("cache-shelf-missing", fmt.Sprintf("unpack (placement %s) answered %s although the commit onto the shelf cannot have happened (%s): the shelf does not hold the ware (%v)", mode, got, how, e), op)
+		}
+	}
 }
